@@ -32,6 +32,8 @@ Streams:
   sequence    ONE adapter instance writes 2-5 steps in a row (plus an exhaustive
               rich/lean small scope per back-end): per-instance state must not
               leak from one step's script into the next
+  rewrite     steps with one name written one after the other into the SAME
+              workspace directory: nothing of the older file may survive
   exotic      seeded: malformed tokens, zero/empty/odd values, unsafe
               characters, missing batch keys, unicode text (never inside a
               token's brackets)
@@ -337,12 +339,17 @@ class Impl:
                 out.append({"exc": self.classify(e), "cls": type(e).__name__, "msg": str(e)[:160]})
         return out
 
-    def run(self, c):
-        for f in os.listdir(self.ws):
-            try:
-                os.remove(os.path.join(self.ws, f))
-            except OSError:
-                shutil.rmtree(os.path.join(self.ws, f), ignore_errors=True)
+    def run_rewrite(self, group):
+        """the steps of `group` (same step name) are written one after the other
+        into the SAME workspace directory, each by a fresh adapter instance (a
+        re-run of a study into an existing workspace); the observable is what
+        is in the files after each write"""
+        self._clean()
+        return [self.run(c, clean=False) for c in group]
+
+    def run(self, c, clean=True):
+        if clean:
+            self._clean()
         try:
             be = c["backend"]
             if be not in self.cls:
@@ -600,6 +607,67 @@ def gen_sequence(rng, sid):
     return seq
 
 
+def gen_rewrite(rng, gid):
+    """2-3 steps with ONE name for one workspace directory: mostly a rich, long
+    script first and a leaner, shorter one afterwards; sometimes the same twice"""
+    be = rng.choices(["slurm", "lsf", "flux", "local"], [40, 22, 22, 16])[0]
+    b = base_batch(rng, be)
+    name = rng.choice(NAMES)
+    group = []
+    for i in range(rng.choice([2, 2, 3])):
+        if group and rng.random() < 0.2:
+            c = json.loads(json.dumps(strip_case(group[-1]), default=str))
+        else:
+            res, maxn, maxp = gen_res(rng)
+            if i == 0:
+                have = set(k for k, _ in res)
+                for k, v in (("nodes", 4), ("procs", 16), ("walltime", "01:30:00"), ("gpus", 2),
+                             ("exclusive", True), ("reservation", "myres")):
+                    if k not in have and rng.random() < 0.6:
+                        res.append([k, v])
+            else:
+                keep = rng.choice([["procs"], ["nodes", "procs"], ["procs", "walltime"], []])
+                res = [kv for kv in res if kv[0] in keep]
+            maxn = next((int(v) for k, v in res if k == "nodes"), 0)
+            maxp = next((int(v) for k, v in res if k == "procs"), 0)
+            cmd, cp = gen_cmd(rng, maxn, maxp)
+            if i > 0:
+                cmd, cp = cmd.split("\n")[0] or "a.out", None      # shorter
+            restart, rp = ("", [])
+            if rng.random() < (0.6 if i == 0 else 0.15):
+                restart, rp = gen_cmd(rng, maxn, maxp)
+            c = {"backend": be, "batch": b, "name": name, "desc": rng.choice(["d", "Run the simulation", ""]),
+                 "cmd": cmd, "restart": restart, "res": res, "cmd_pieces": cp, "restart_pieces": rp}
+        c["stream"] = "rewrite"
+        c["rewrite"] = [gid, i]
+        group.append(c)
+    return group
+
+
+def small_rewrites():
+    """every back-end (local too): rich then lean, lean then rich, the same twice,
+    restart script present then absent"""
+    rich = {"res": [["nodes", 4], ["procs", 16], ["walltime", "01:30:00"], ["gpus", 2], ["exclusive", True]],
+            "cmd": "$(LAUNCHER)[4n,16p] ./sim --long-option 1\n$(LAUNCHER) ./post", "restart": "$(LAUNCHER) ./sim --restart"}
+    lean = {"res": [["nodes", 1], ["procs", 4]], "cmd": "$(LAUNCHER) ./sim", "restart": ""}
+    loc_rich = {"res": [], "cmd": "echo a long first line of the command\necho second line", "restart": "echo restart"}
+    loc_lean = {"res": [], "cmd": "echo hi", "restart": ""}
+    out, gid = [], 0
+    for be in ("slurm", "lsf", "flux", "local"):
+        b = {"type": be} if be == "local" else {"type": be, "host": "h", "bank": "b", "queue": "q"}
+        variants = {"r": rich, "l": lean, "R": loc_rich, "L": loc_lean}
+        for order in ("rl", "lr", "rr", "RL", "LR", "RR", "rL", "Rl"):
+            group = []
+            for i, ch in enumerate(order):
+                v = variants[ch]
+                group.append({"backend": be, "batch": b, "name": "s1", "desc": "d", "cmd": v["cmd"],
+                              "restart": v["restart"], "res": [list(kv) for kv in v["res"]], "cmd_pieces": None,
+                              "restart_pieces": None, "stream": "rewrite", "rewrite": ["small%d" % gid, i]})
+            out.append(group)
+            gid += 1
+    return out
+
+
 def small_sequences():
     """every scheduled back-end: a step declaring many keys, then a lean step
     (and the other way round, and the rich one twice)"""
@@ -757,16 +825,19 @@ def shape(c, o):
 KNOWN_SIG = {}     # signature name -> (id, what) from KNOWN_FINDINGS.txt
 
 
-def run_all(impl, cases, seqs):
-    """observables: a fresh adapter per single case; one shared adapter per sequence"""
+def run_all(impl, cases, seqs, rewrites=()):
+    """observables: a fresh adapter and directory per single case; one shared
+    adapter per sequence; one shared directory per rewrite group"""
     obs = [impl.run(c) for c in cases]
     for seq in seqs:
         obs.extend(impl.run_sequence(seq))
-    return cases + [c for seq in seqs for c in seq], obs
+    for grp in rewrites:
+        obs.extend(impl.run_rewrite(grp))
+    return cases + [c for seq in seqs for c in seq] + [c for grp in rewrites for c in grp], obs
 
 
-def evaluate(ck, cases, impl, tag, count=True, seqs=()):
-    cases, obs = run_all(impl, cases, list(seqs))
+def evaluate(ck, cases, impl, tag, count=True, seqs=(), rewrites=()):
+    cases, obs = run_all(impl, cases, list(seqs), list(rewrites))
     bad, errs, detail = classify_cases(tag, cases, obs)
     hist = ck.cov.setdefault("input_distribution", {})
     if count:
@@ -817,6 +888,17 @@ def evaluate(ck, cases, impl, tag, count=True, seqs=()):
             else:
                 findings.append(("violation", "C15_ok is false on the implementation's script "
                                  "(backend %s, outcome %s)" % (c["backend"], o.get("exc") or "script"), cj))
+        if c.get("rewrite"):
+            gid = c["rewrite"][0]
+            cj["written_before_into_same_directory"] = [strip_case(x) for x in cases
+                                                        if x.get("rewrite") and x["rewrite"][0] == gid
+                                                        and x["rewrite"][1] < c["rewrite"][1]]
+        if not d["corr"] and c.get("rewrite") and c["rewrite"][1] > 0 and d["mon"]:
+            fresh = impl.run(c)
+            if fresh != o:
+                findings.append(("violation", "the script file depends on what the workspace held before "
+                                 "(backend %s)" % c["backend"], dict(cj, fresh_directory=fresh)))
+                continue
         if not d["corr"] and c.get("seq") and d["mon"]:
             # the shared instance disagrees with the stateless model although the script is still right
             # for the step: per-instance state influences generation -- a violation of "write_script is a
@@ -892,7 +974,8 @@ def report(ck, findings, impl=None):
     for f in findings:
         if f[0] == "violation":
             cj = f[2]
-            if impl is not None and not shrunk and "sequence" not in cj:
+            if impl is not None and not shrunk and "sequence" not in cj \
+                    and not cj.get("written_before_into_same_directory"):
                 shrunk = True
                 try:
                     cj = shrink(impl, cj)
@@ -920,9 +1003,11 @@ def run(ck):
         n_seq = 70 if ck.tier == "quick" else 1500
         seqs = small_sequences() + [gen_sequence(rng, i) for i in range(n_seq)]
         ck.cov["sequences"] = {"count": len(seqs), "steps": sum(len(q) for q in seqs)}
-        n_single = len(cases)
-        obs, bad, findings = evaluate(ck, cases, impl, "C15", seqs=seqs)
-        cases = cases + [c for q in seqs for c in q]
+        n_rw = 40 if ck.tier == "quick" else 1000
+        rws = small_rewrites() + [gen_rewrite(rng, i) for i in range(n_rw)]
+        ck.cov["rewrites"] = {"groups": len(rws), "writes": sum(len(g) for g in rws)}
+        obs, bad, findings = evaluate(ck, cases, impl, "C15", seqs=seqs, rewrites=rws)
+        cases = cases + [c for q in seqs for c in q] + [c for g in rws for c in g]
         report(ck, findings, impl)
         ck.cov["traces_validated_against_impl"] = len(cases)
         ck.cov["rule"] = (
@@ -936,13 +1021,16 @@ def run(ck):
             "Sequence stream: ONE adapter instance per back-end writes 2-5 steps in a row (rich steps first, lean "
             "later, repeats, get_header / get_parallelize_command / get_scheduler_command interleaved); every script "
             "must equal the stateless model's for that step alone and satisfy C15_ok with the step's own "
-            "effective resources." % ncorpus)
+            "effective resources. Rewrite stream: for every back-end (local too) 2-3 steps with one name are "
+            "written one after the other into the SAME directory (rich/long first, lean/short later, the same "
+            "twice, restart present then absent); the file content after each write is judged like a fresh one." % ncorpus)
 
         def search():
             r2 = random.Random(ck.seed + 7919)
             extra = [gen_case(r2, "structured") for _ in range(2500)] + [gen_case(r2, "exotic") for _ in range(1500)]
             sq = [gen_sequence(r2, "s%d" % i) for i in range(400)]
-            _, _, f2 = evaluate(ck, extra, impl, "C15-search", count=False, seqs=sq)
+            rw = [gen_rewrite(r2, "r%d" % i) for i in range(300)]
+            _, _, f2 = evaluate(ck, extra, impl, "C15-search", count=False, seqs=sq, rewrites=rw)
             for f in f2:
                 if f[0] == "violation":
                     try:
